@@ -88,6 +88,7 @@ class Parser(object):
         self.parser = yacc.yacc(module=self, debug=False)
         self.lexer = Lexer().lexer
         self.eems_v2 = False
+        self.errors = []
 
     def p_program(self, p):
         """
@@ -231,7 +232,10 @@ class Parser(object):
         """
 
         if isinstance(p[3], dict):
-            raise SyntaxError("Syntax error: a list cannot mix values and key/value pairs (line {0})".format(p.lineno(2)))
+            # PLY treats a SyntaxError raised inside a grammar action as a request for error recovery and swallows it,
+            # so the problem is recorded here and raised by `parse()`
+            self.errors.append("Syntax error: a list cannot mix values and key/value pairs (line {0})".format(p.lineno(2)))
+            p[3] = []
 
         p[0] = [p[1]] + p[3]
 
@@ -308,5 +312,11 @@ class Parser(object):
         """ Parses the source text into a program structure """
 
         self.lexer.lineno = 1  # the lexer (and its line counter) is reused between calls
+        self.errors = []
 
-        return self.parser.parse(source, lexer=self.lexer, tracking=True)
+        program = self.parser.parse(source, lexer=self.lexer, tracking=True)
+
+        if self.errors:
+            raise SyntaxError(self.errors[0])
+
+        return program
